@@ -20,12 +20,12 @@ import (
 // Environment doubles and the scenario interpreter shared by C10 C11 C12 C15.
 
 var (
-	errInjectedWrite = errors.New("injected write failure")
-	errConnClosed    = errors.New("vconn: use of closed connection")
-	errReadTimeout   = errors.New("vconn: read timeout")
-	errInjConnClose  = errors.New("injected connection close error")
-	errInjAgentClose = errors.New("injected agent close error")
-	errInjAgentStart = errors.New("injected agent start error")
+	errInjectedWrite       = errors.New("injected write failure")
+	errConnClosed          = errors.New("vconn: use of closed connection")
+	errReadTimeout   error = &net.OpError{Op: "read", Net: "vconn", Err: os.ErrDeadlineExceeded} // a net.Error whose Timeout() is true, like a read deadline that expired
+	errInjConnClose        = errors.New("injected connection close error")
+	errInjAgentClose       = errors.New("injected agent close error")
+	errInjAgentStart       = errors.New("injected agent start error")
 	// the same faults with errors whose IDENTITY means something elsewhere: closing a connection that is closed
 	// already, an agent closed by its owner first, a write that runs into its deadline
 	errInjConnCloseSentinel  error = &net.OpError{Op: "close", Net: "udp", Err: net.ErrClosed}
@@ -78,6 +78,9 @@ func (e cliEv) String() string {
 		if e.Arg == 4 {
 			return fmt.Sprintf("resp(%c,28 trailing bytes)", 'A'+e.I)
 		}
+		if e.Arg >= 6 && e.Arg <= 8 {
+			return fmt.Sprintf("resp(%c,%s)", 'A'+e.I, []string{"with FINGERPRINT", "with FINGERPRINT and 4 trailing bytes", "with a wrong FINGERPRINT"}[e.Arg-6])
+		}
 		if e.Arg == 5 {
 			return fmt.Sprintf("resp(%c,method 0x123)", 'A'+e.I)
 		}
@@ -102,6 +105,8 @@ func (e cliEv) String() string {
 		return "readerr(" + []string{"generic", "net.ErrClosed", "io.EOF", "ECONNREFUSED", "deadline exceeded"}[e.Arg] + ")"
 	case "setrto":
 		return fmt.Sprintf("setrto(%dms)", e.Arg)
+	case "clockback":
+		return "the clock is set back by an hour"
 	}
 	return e.K
 }
@@ -232,9 +237,16 @@ type cliWorld struct {
 	coll2   *vCollector
 	agent2  *vAgent
 	raw2    map[int][]byte // slot -> request bytes of client 2
+	// successor: with WithNoConnClose the connection is the caller's; after Close it goes on using it with a new client
+	muted      bool
+	succRan    bool
+	succEvents []string
 }
 
 func (w *cliWorld) rec(r obsRec) int {
+	if w.muted {
+		return len(w.log) - 1 // the successor client's traffic is judged by its own clause, not by this log
+	}
 	r.Time = w.clock.now
 	r.Thr = sched.CurrentID()
 	w.log = append(w.log, r)
@@ -405,6 +417,11 @@ func (a *vAgent) Start(id [stun.TransactionIDSize]byte, deadline time.Time) erro
 	return err
 }
 func (a *vAgent) Stop(id [stun.TransactionIDSize]byte) error { return a.a.Stop(id) }
+
+// StopWithError: the wrapper offers everything the wrapped Agent offers (a client may look for optional methods).
+func (a *vAgent) StopWithError(id [stun.TransactionIDSize]byte, err error) error {
+	return a.a.StopWithError(id, err)
+}
 func (a *vAgent) Collect(t time.Time) error {
 	err := a.a.Collect(t)
 	for id, d := range a.deadlines {
@@ -549,6 +566,19 @@ func cliResponseSized(slot int, variant int, size int) []byte {
 		if len(m.Raw) != 1024 {
 			panic("cliResponseSized: not 1024 bytes")
 		}
+	}
+	if size >= 6 && size <= 8 {
+		// 6: the response carries a (correct) FINGERPRINT; 7: and 4 more bytes behind the message; 8: a FINGERPRINT
+		// whose value is wrong (the client does not check fingerprints: the message is the transaction's all the same)
+		_ = stun.Fingerprint.AddTo(m)
+		raw := append([]byte(nil), m.Raw...)
+		if size == 7 {
+			raw = append(raw, 0xDE, 0xAD, 0xBE, 0xEF)
+		}
+		if size == 8 {
+			raw[len(raw)-1] ^= 0x55
+		}
+		return raw
 	}
 	if size == 4 {
 		// the datagram carries 28 more bytes behind the message (padding of a lower layer, a second message): Decode
@@ -828,6 +858,10 @@ func (w *cliWorld) do(ev cliEv, quiesce bool) {
 	case "setrto":
 		w.rtoNow = time.Duration(ev.Arg) * time.Millisecond
 		c.SetRTO(w.rtoNow)
+	case "clockback":
+		// the caller's clock is a wall clock: it is stepped back (NTP correction, VM restore). Deadlines of
+		// transactions started from now on are taken from the new time
+		w.clock.now = w.clock.now.Add(-time.Hour)
 	case "overwrite":
 		// the caller reuses its message after Start: scribble, Reset and rebuild something else
 		if m := w.msgs[ev.I]; m != nil {
@@ -968,6 +1002,39 @@ func runScenario(sc cliScenario) (*sched.Result, *cliWorld) {
 			w.rec(obsRec{Kind: "close-ret", Inst: -1, Err: cerr, N: w.closeRets, ReaderDone: sched.LiveDaemons() == 0})
 			w.closeRets++
 			sched.Quiesce()
+		}
+		closedForGood := false // some Close call has returned as the one that closed the client
+		for _, r := range w.log {
+			if r.Kind == "close-ret" && !errors.Is(r.Err, stun.ErrClientClosed) {
+				closedForGood = true
+			}
+		}
+		if closedForGood && sc.Opts.NoConnClose && !w.conn.closed && w.fatal == "" {
+			// the connection is still open and still the caller's: a new client on it gets every datagram from now on
+			w.muted = true
+			w.conn.inbox = nil
+			w.conn.failNext = false
+			sagent := &vAgent{w: w, a: stun.NewAgent(nil), deadlines: map[[12]byte]time.Time{}}
+			succ, serr := stun.NewClient(w.conn, stun.WithAgent(sagent), stun.WithClock(w.clock), stun.WithCollector(&vCollector{w: w}), stun.WithNoConnClose(), stun.WithNoRetransmit)
+			if serr == nil {
+				w.succRan = true
+				m := cliRequest(4, 20)
+				serr = succ.Start(m, func(e stun.Event) {
+					if e.Message != nil {
+						w.succEvents = append(w.succEvents, "message")
+					} else {
+						w.succEvents = append(w.succEvents, "error:"+errClass(e.Error))
+					}
+				})
+				if serr != nil {
+					w.succEvents = append(w.succEvents, "start-failed:"+errClass(serr))
+				}
+				w.conn.inbox = append(w.conn.inbox, cliResponse(4, 0))
+				sched.Quiesce()
+				_ = succ.Close()
+				sched.Quiesce()
+			}
+			w.muted = false
 		}
 	})
 	return res, w
